@@ -45,6 +45,13 @@ def decorate(rng, text):
     for l in lines:
         if l.startswith("let ") and rng.random() < 0.4:
             l = "let /* " + rng.choice(["😉", "é€", "x"]) + " */ " + l[4:]
+        if rng.random() < 0.3:
+            # a line break before an identifier use: the use starts at column 0 of its line
+            import re
+            ms = list(re.finditer(r"('[\w$-]+[!?]?|=|,|<|\() (?=[A-Za-z_@])", l))
+            if ms:
+                m = rng.choice(ms)
+                l = l[:m.end() - 1] + "\n" + l[m.end():]
         out.append(l)
         if rng.random() < 0.15:
             out.append("")
